@@ -26,6 +26,7 @@ def run_property(prop, tier, seed, root=None, overrides=None, quiet=False):
         from .rules import l2
         l2.rule_unbound(ctx)
         l2.rule_memoised(ctx)
+        l2.rule_int_params(ctx)
         fixtures = None
         exp = getattr(mod, 'PINNED_EXPECT', None)
         if exp and root is None and overrides is None:
